@@ -70,7 +70,11 @@ def slice_bounds(sl, n):
 
 def subscript(o, idx):
     if isinstance(o, dict):
-        if idx not in o: raise PyRaise(_exc("KeyError"), str(idx))
+        if idx not in o:
+            def sym(x): return is_z3(x) or isinstance(x, SArr) or (isinstance(x, (tuple, list)) and any(sym(y) for y in x))
+            # membership of a key with symbolic components cannot be decided by Python's dict: engine limitation, never a KeyError of the program
+            if sym(idx) or any(sym(k) for k in o): raise Unsupported("dictionary lookup with a symbolic key (caches keyed by parameters are outside the supported subset)")
+            raise PyRaise(_exc("KeyError"), str(idx))
         return o[idx]
     if isinstance(o, (tuple, list, str, range)):
         if isinstance(idx, slice) or concrete_int(idx) is not None:
